@@ -186,3 +186,56 @@ def ev_op(uni, gname, fn, ka, kb=None, n=None, how="mul"):
         eb = make_elem(G, kb, "dec")
         ev["out"] = {"eq": 1 if ea == eb else 0, "ne": 1 if ea != eb else 0}
     return ev
+
+
+# --------------------------------------------------------------------------
+# C12: the three extended-coordinate formulas
+# --------------------------------------------------------------------------
+ED_FUNCS = {"add3": "add_elements", "add4": "_add_elements_nonunfied", "dbl": "double_element"}
+
+
+def straight_line(basic, fname):
+    """the function is straight-line arithmetic: no branch, loop, comparison or call in its body"""
+    import ast, inspect, textwrap
+    src = textwrap.dedent(inspect.getsource(getattr(basic, fname)))
+    fn = ast.parse(src).body[0]
+    bad = [type(n).__name__ for n in ast.walk(fn)
+           if isinstance(n, (ast.If, ast.While, ast.For, ast.IfExp, ast.BoolOp, ast.Compare, ast.Call, ast.Try, ast.With,
+                             ast.Lambda, ast.ListComp, ast.GeneratorExp))]
+    return bad == [], bad
+
+
+def scale(P, z, Q):
+    x, y = P
+    return (x * z % Q, y * z % Q, z % Q, x * y * z % Q)
+
+
+def toy_curve_points(basic):
+    """all affine points of a toy curve by exhaustive search of the curve equation
+    (inputs for the table; the specification re-checks that each operand is a curve point)"""
+    Q, d = basic.Q, basic.d % basic.Q
+    return [(x, y) for y in range(Q) for x in range(Q) if (-x * x + y * y - 1 - d * x * x * y * y) % Q == 0]
+
+
+def ev_ed_tab(uni, gname, fn, P1, z1, p2s, z2s):
+    basic = uni.basic[gname]
+    Q = basic.Q
+    f = getattr(basic, ED_FUNCS[fn])
+    r1 = scale(P1, z1, Q)
+    r2s, outs = [], []
+    for P2 in p2s:
+        for z2 in z2s:
+            r2 = scale(P2, z2, Q)
+            out = f(r1) if fn == "dbl" else f(r1, r2)
+            r2s.append(list(r2))
+            outs.append([int(v) % Q for v in out])
+    return {"op": "ed_tab", "grp": gname, "fn": fn, "r1": list(r1), "r2s": r2s, "outs": outs, "w": max(1, len(outs) // 8)}
+
+
+def ev_ed_op(uni, gname, fn, r1, r2, note):
+    basic = uni.basic[gname]
+    Q = basic.Q
+    f = getattr(basic, ED_FUNCS[fn])
+    out = f(tuple(r1)) if fn == "dbl" else f(tuple(r1), tuple(r2))
+    return {"op": "ed_op", "grp": gname, "fn": fn, "r1": [numhex(v % Q) for v in r1], "r2": [numhex(v % Q) for v in r2],
+            "out": [numhex(int(v) % Q) for v in out], "note": note, "w": 4}
